@@ -273,7 +273,7 @@ theorem dlRel_congr {s s' : S} {ms ms' : MState} (hd : DlRel s ms) (h1 : s'.ev.h
 
 /-- operations that touch neither the immediate queues nor the timers -/
 def frameOp : Op → Bool
-  | .failat _ | .failfrom _ | .failoff | .clock _ | .hInit | .hAdd _ _ | .hMin | .hDelmin | .hFree
+  | .failat _ | .failfrom _ | .failoff | .clock _ | .hInit | .hAdd _ _ | .hMin | .hDelmin | .hFree | .hCreate _
   | .regNet _ _ _ | .cancelNet _ _ => true
   | _ => false
 
@@ -752,6 +752,7 @@ theorem run_step (s : S) (ms : MState) (op : Op) (hop : op ≠ .end_) (h : RegRe
   | hMin => exact ⟨fun hh => (by cases hh), frame_dl s ms _ (by rfl) hd⟩
   | hDelmin => exact ⟨fun hh => (by cases hh), frame_dl s ms _ (by rfl) hd⟩
   | hFree => exact ⟨fun hh => (by cases hh), frame_dl s ms _ (by rfl) hd⟩
+  | hCreate els => exact ⟨fun hh => (by cases hh), frame_dl s ms _ (by rfl) hd⟩
   | regNet i fd w => exact ⟨fun hh => (by cases hh), frame_dl s ms _ (by rfl) hd⟩
   | cancelNet fd w => exact ⟨fun hh => (by cases hh), frame_dl s ms _ (by rfl) hd⟩
 
